@@ -146,3 +146,40 @@ Theorem C14_knot_clean_undoes_insertion :
        (exists e : exn, c_knot_remove r [x] (Some t) = Err e).
 Proof. exact knot_clean_undoes_insert. Qed.
 Print Assumptions C14_knot_clean_undoes_insertion.
+
+From NurbsV Require Import Proofs.SmallClosures.
+From NurbsV Require Proofs.UnionProofs Proofs.BezierProofs.
+(* ---- degree_clean (Proofs/SmallClosures.v): the loop ends because a further reduction is REFUSED (a degree-0 curve is refused; each accepted
+   step lowers the degree by one); for a Bezier curve elevated t times it passes through the original curve (degree, knots and control
+   points up to ==), for every t, given the chain of solve certificates `dcerts` (checkable by vm_compute). ---- *)
+Theorem C14_degree_loop_stops_only_at_refusal :
+  forall (c : curve) (tol : Q) (r : curve),
+       WF (kvec (ckv c)) (kdeg (ckv c)) ->
+       c_degree_clean c tol = Ok r ->
+       0 <= tol /\
+       WF (kvec (ckv r)) (kdeg (ckv r)) /\
+       (kdeg (ckv r) <= kdeg (ckv c))%nat /\ (exists e : exn, c_degree_decrease r 1 (Some tol) = Err e).
+Proof. exact degree_clean_ends_refused. Qed.
+Print Assumptions C14_degree_loop_stops_only_at_refusal.
+
+Theorem C14_degree_clean_undoes_bezier_elevation :
+  forall (q : curve) (Pq : list pt) (d p : nat) (a b : Q) (tt : nat) (c1 : curve) (t : Q) (r : curve),
+       cW q = None ->
+       cP q = Some Pq ->
+       Forall2 Qeq (kvec (ckv q)) (BezierProofs.bez p a b) ->
+       cdeg q = p ->
+       a < b ->
+       length Pq = cnpts q ->
+       Forall (fun x : pt => length x = d) Pq ->
+       c_degree_increase q tt = Ok c1 ->
+       dcerts tt (ckv c1) ->
+       c_degree_clean c1 t = Ok r ->
+       (exists (c2 : curve) (P2 : list pt),
+          r = decrease_while (S (kdeg (ckv c1)) - tt) c2 t /\
+          cW c2 = None /\
+          cP c2 = Some P2 /\
+          WF (kvec (ckv c2)) (kdeg (ckv c2)) /\
+          Forall2 Qeq (kvec (ckv c2)) (kvec (ckv q)) /\ kdeg (ckv c2) = cdeg q /\ Forall2 (Forall2 Qeq) P2 Pq) /\
+       (kdeg (ckv r) <= cdeg q)%nat /\ (exists e : exn, c_degree_decrease r 1 (Some t) = Err e).
+Proof. exact degree_clean_undoes_elevation. Qed.
+Print Assumptions C14_degree_clean_undoes_bezier_elevation.
